@@ -21,7 +21,7 @@ INSTS = [(0x1234, 1, 2, 7), (0x1234, 2, 2, 7), (0x1235, 1, 1, 0)]
 
 
 def bounds(tier):
-    return {"H12": "family 'fields': %d instances with differing ids/versions, FindService service/instance 16-bit, major 8-bit, minor 32-bit, TTL fully symbolic (every wildcard combination included), channel symbolic, arrival at 0 / 25 / 500 / 1040 ms (initial wait, between first offers, repetition done, cyclic phase), TTL {3, infinite} x collection timeout {0, 5 ms}; family 'times': request from {exact, all wildcards, other service, other minor}, arrival instant symbolic in 0..1500 ms, initial delay and request-response delay symbolic, optional stop of the instance at a symbolic instant, channel symbolic, %s" % ((3, "1..2 instances") if tier == "thorough" else (2, "1 instance"))}
+    return {"H12": "family 'fields': %d instances with differing ids/versions, FindService service/instance 16-bit, major 8-bit, minor 32-bit, TTL fully symbolic (every wildcard combination included), channel symbolic, arrival at 0 / 25 / 500 / 1040 ms (initial wait, between first offers, repetition done, cyclic phase), TTL {3, infinite} x collection timeout {0, 5 ms}; family 'times': request from {exact, all wildcards, other service, other minor}, arrival instant symbolic in 0..1500 ms, initial delay and request-response delay symbolic, optional stop of the instance (stop_announce_service) or of the announcer at a symbolic instant, channel symbolic, %s" % ((3, "1..2 instances") if tier == "thorough" else (2, "1 instance"))}
 
 
 FINDS = {"exact": (0x1234, 1, 2, 7), "wild": (0x1234, 0xFFFF, 0xFF, 0xFFFFFFFF), "other": (0x1235, 1, 2, 7), "minor": (0x1234, 1, 2, 8)}
@@ -41,7 +41,7 @@ def cases(tier, seed):
     # request from a small alphabet
     for find in FINDS:
         for col in (0, 5):
-            for stop in (0, 1):
+            for stop in (0, 1, 2):
                 for nn in ((1, 2) if tier == "thorough" else (1,)):
                     if tier == "quick" and find in ("other", "minor") and (stop or col):
                         continue
@@ -82,14 +82,17 @@ def h12(E, M, case):
     mc = E.flag("multicast")
     sc = Script(loop, E)
     ts = None
+    # stop == 1: the instance is withdrawn (stop_announce_service); stop == 2: the whole
+    # announcer is stopped (instances stay registered)
+    stopper = (lambda: ann.stop_announce_service(insts[0])) if case["stop"] == 1 else ann.stop
     if case["stop"]:
         ts = E.int("t_stop", 0, 1500)
         if ts <= tf:
-            sc.at(ts, lambda: ann.stop_announce_service(insts[0]), "stop")
+            sc.at(ts, stopper, "stop")
             sc.at(tf, lambda: prot.datagram_received(data, P, mc), "find")
         else:
             sc.at(tf, lambda: prot.datagram_received(data, P, mc), "find")
-            sc.at(ts, lambda: ann.stop_announce_service(insts[0]), "stop")
+            sc.at(ts, stopper, "stop")
     else:
         sc.at(tf, lambda: prot.datagram_received(data, P, mc), "find")
     sc.flush()
@@ -118,7 +121,7 @@ def h12(E, M, case):
         match = E.And(fs == s[0], E.Or(fi == 0xFFFF, fi == s[1]), E.Or(fm == 0xFF, fm == s[2]), E.Or(fn == 0xFFFFFFFF, fn == s[3]))
         ready = tf > q0 + C
         notready = tf < q0
-        if ts is not None and k == 0:
+        if ts is not None and (k == 0 or case["stop"] == 2):
             # the answer must have left before the stop to be certain; a request after the
             # stop is certainly not answered
             leave_by = tf + (50 if mc else 0) + C
